@@ -204,3 +204,13 @@ Definition parse_text (s : bytes) : pout :=
   | None => (PClose, [ALine (len s)])                      (* io.EOF before a line feed *)
   | Some (line, s1) => pre [ALine (len line)] (text_dispatch (split_sp (trim_space line)) s1)
   end.
+
+(* what the text parser buffers: lines it actually received, and a data block of exactly the
+   length the command line declares (a uint32) *)
+Definition text_ev_ok (s : bytes) (a : aev) : Prop :=
+  match a with
+  | ALine n => n <= len s
+  | ATextData n => n < 4294967296
+  | _ => False
+  end.
+
